@@ -80,11 +80,14 @@ def main(argv):
         return rc
     pid = cmd.upper()
     prop = load(pid)
+    os.environ.setdefault("VERIF_RUN_ID", str(os.getpid()))
     try:
         return prop.main(tier, seed)
     except B.BuildError as e:
         print("INCONCLUSIVE property=%s build failed:\n%s" % (pid, e))
         return 3
+    finally:
+        B.cleanup_workdir(pid)
 
 
 if __name__ == "__main__":
